@@ -30,13 +30,24 @@ TRUSTED_BASE = [
 ]
 
 
-def sh(cmd, cwd=None, timeout=None, env=None, input=None):
+def _limit_as(gb):
+    def f():
+        import resource
+        lim = int(gb * (1 << 30))
+        resource.setrlimit(resource.RLIMIT_AS, (lim, lim))
+    return f
+
+
+def sh(cmd, cwd=None, timeout=None, env=None, input=None, mem_gb=None):
+    """mem_gb: address-space limit for the child (a model evaluator fed with the output of a broken
+    implementation must not be able to exhaust the machine's memory)."""
     e = dict(os.environ)
     e.update({"CARGO_NET_OFFLINE": "true", "GOPROXY": "off", "PIP_NO_INDEX": "1"})
     if env:
         e.update(env)
     p = subprocess.run(cmd, cwd=cwd, timeout=timeout, env=e, input=input,
-                       stdout=subprocess.PIPE, stderr=subprocess.STDOUT, text=True)
+                       stdout=subprocess.PIPE, stderr=subprocess.STDOUT, text=True,
+                       preexec_fn=_limit_as(mem_gb) if mem_gb else None)
     return p.returncode, p.stdout
 
 
@@ -62,7 +73,7 @@ def strip_lean_comments(src):
     return "".join(out)
 
 
-def run_lines(cmd, lines, timeout=120, cwd=None, env=None, _budget=None):
+def run_lines(cmd, lines, timeout=120, cwd=None, env=None, _budget=None, mem_gb=None):
     """Pipe request lines to a line server; return one answer per request.
     On a hang or crash the offending request is isolated (bisection, leftmost first) and answered
     `timeout` / `crash`.  Isolation is bounded (ISOLATION_LAUNCHES process launches per call): when an
@@ -75,7 +86,7 @@ def run_lines(cmd, lines, timeout=120, cwd=None, env=None, _budget=None):
         _budget = [ISOLATION_LAUNCHES]
     data = "\n".join(lines) + "\n"
     try:
-        rc, out = sh(cmd, input=data, timeout=timeout, cwd=cwd, env=env)
+        rc, out = sh(cmd, input=data, timeout=timeout, cwd=cwd, env=env, mem_gb=mem_gb)
         ans = out.split("\n")
         if ans and ans[-1] == "": ans.pop()
         if rc == 0 and len(ans) == len(lines):
@@ -90,7 +101,7 @@ def run_lines(cmd, lines, timeout=120, cwd=None, env=None, _budget=None):
     _budget[0] -= 2
     mid = len(lines) // 2
     t = max(5, timeout // 2)
-    return run_lines(cmd, lines[:mid], t, cwd, env, _budget) + run_lines(cmd, lines[mid:], t, cwd, env, _budget)
+    return run_lines(cmd, lines[:mid], t, cwd, env, _budget, mem_gb) + run_lines(cmd, lines[mid:], t, cwd, env, _budget, mem_gb)
 
 
 ISOLATION_LAUNCHES = 600
